@@ -118,6 +118,68 @@ fn run_t<T: Dyn>(out: &mut Out, rng: &mut Rng, n: usize, routes: &Vec<Vec<Option
     }
 }
 
+
+/// RGB standards among themselves and into Oklab: the direct conversions carry `TypeId` shortcuts (same standard: reinterpret; same
+/// space: transfer functions only; sRGB primaries -> Oklab: direct matrices), which must agree with the step-by-step route through Xyz
+/// for EVERY ordered pair of D65 standards, and convert back.
+macro_rules! rgb_standards { ($out:expr, $rng:expr, $n:expr, $t:ty) => {{
+    type T = $t; let (out, rng, n): (&mut Out, &mut Rng, usize) = ($out, $rng, $n);
+    use palette::cast::{from_array, into_array};
+    use palette::convert::FromColorUnclamped;
+    use palette::encoding::{AdobeRgb, DisplayP3, Linear, Rec2020, Rec709, Srgb};
+    use palette::rgb::Rgb; use palette::white_point::D65; use palette::{Oklab, Oklch, Xyz};
+    let tol = if T::TAG == "f32" { 2e-5 } else { 1e-6 };
+    let mut cols: Vec<[f64; 3]> = vec![[0.9, 0.2, 0.1], [0.1, 0.8, 0.3], [0.2, 0.3, 0.95], [0.5, 0.5, 0.5], [1.0, 1.0, 1.0], [0.0, 0.0, 0.0], [1.0, 0.0, 0.0], [0.0, 1.0, 0.0], [0.0, 0.0, 1.0], [0.02, 0.01, 0.03]];
+    for _ in 0..n { cols.push([rng.unit(), rng.unit(), rng.unit()]); }
+    macro_rules! pair { ($s1:ty, $s2:ty, $n1:expr, $n2:expr) => {{
+        for c in &cols {
+            let a: [T; 3] = arr_of(*c);
+            let direct: [T; 3] = into_array(<Rgb<$s2, T>>::from_color_unclamped(from_array::<Rgb<$s1, T>>(a)));
+            let via: [T; 3] = into_array(<Rgb<$s2, T>>::from_color_unclamped(<Xyz<D65, T>>::from_color_unclamped(from_array::<Rgb<$s1, T>>(a))));
+            out.case(&format!("conv Rgb:{} Rgb:{} | {} | {}", $n1, $n2, hx_list(&a), hx_list(&direct)));
+            if !(finite(&direct) && finite(&via)) { out.count("cls:nonfinite-skipped"); continue; }
+            let e = (0..3).map(|k| (direct[k].to64() - via[k].to64()).abs()).fold(0.0, f64::max);
+            out.maxi(&format!("rgb-standards-err:{}", T::TAG), e);
+            // pure power laws amplify the matrix mismatch near black (Hölder, DESIGN §3 C01): 4e-3 there, else tol
+            let t2 = if $n1 == "AdobeRgb" || $n2 == "AdobeRgb" { 4e-3 } else { 4.0 * tol };
+            out.check(e <= t2, &format!("commute-rgb-standards:{}->{}:{}", $n1, $n2, T::TAG), || format!("{:?}: direct {:?}, via Xyz {:?}", a, direct, via));
+            let back: [T; 3] = into_array(<Rgb<$s1, T>>::from_color_unclamped(from_array::<Rgb<$s2, T>>(direct)));
+            if finite(&back) { let e = (0..3).map(|k| (back[k].to64() - a[k].to64()).abs()).fold(0.0, f64::max);
+                let t3 = if $n1 == "AdobeRgb" || $n2 == "AdobeRgb" { 4e-3 } else { 10.0 * tol };
+                out.check(e <= t3, &format!("roundtrip-rgb-standards:{}->{}:{}", $n1, $n2, T::TAG), || format!("{:?} -> {:?} -> {:?}", a, direct, back)); }
+        }
+        out.count("cls:rgb-standard-pair");
+    }} }
+    macro_rules! ok { ($s:ty, $n1:expr) => {{
+        for c in &cols {
+            let a: [T; 3] = arr_of(*c);
+            let direct: [T; 3] = into_array(Oklab::<T>::from_color_unclamped(from_array::<Rgb<$s, T>>(a)));
+            let via: [T; 3] = into_array(Oklab::<T>::from_color_unclamped(<Xyz<D65, T>>::from_color_unclamped(from_array::<Rgb<$s, T>>(a))));
+            out.case(&format!("conv Rgb:{} Oklab | {} | {}", $n1, hx_list(&a), hx_list(&direct)));
+            if !(finite(&direct) && finite(&via)) { out.count("cls:nonfinite-skipped"); continue; }
+            let e = (0..3).map(|k| (direct[k].to64() - via[k].to64()).abs()).fold(0.0, f64::max);
+            out.maxi(&format!("rgb-oklab-direct-vs-xyz:{}:{}", $n1, T::TAG), e);
+            // standards on sRGB primaries take Ottosson's direct matrices, which differ from M1·(sRGB matrix) by K1 (C01WholeOk.k1_forward_colour:
+            // at most 3.9e-4 in Oklab units); every other standard goes through Xyz, so the two are the same computation: 1e-3 covers both
+            out.check(e <= 1e-3, &format!("commute-rgb-oklab:{}:{}", $n1, T::TAG), || format!("Rgb<{}> {:?}: direct Oklab {:?}, via Xyz {:?}", $n1, a, direct, via));
+            let back: [T; 3] = into_array(<Rgb<$s, T>>::from_color_unclamped(from_array::<Oklab<T>>(direct)));
+            let lch: [T; 3] = into_array(<Rgb<$s, T>>::from_color_unclamped(Oklch::<T>::from_color_unclamped(from_array::<Rgb<$s, T>>(a))));
+            for (what, b) in [("Oklab", back), ("Oklch", lch)] {
+                if finite(&b) { let e = (0..3).map(|k| (b[k].to64() - a[k].to64()).abs()).fold(0.0, f64::max);
+                    let t3 = if $n1 == "AdobeRgb" { 4e-3 } else if T::TAG == "f32" { 2e-4 } else { 2e-5 };
+                    out.check(e <= t3, &format!("roundtrip-rgb-{}:{}:{}", what, $n1, T::TAG), || format!("Rgb<{}> {:?} -> {} -> {:?}", $n1, a, what, b)); }
+            }
+        }
+        out.count("cls:rgb-standard-oklab");
+    }} }
+    macro_rules! row { ($s1:ty, $n1:expr) => {
+        pair!($s1, Srgb, $n1, "Srgb"); pair!($s1, Linear<Srgb>, $n1, "LinSrgb"); pair!($s1, Rec709, $n1, "Rec709"); pair!($s1, AdobeRgb, $n1, "AdobeRgb");
+        pair!($s1, DisplayP3, $n1, "DisplayP3"); pair!($s1, Linear<DisplayP3>, $n1, "LinDisplayP3"); pair!($s1, Rec2020, $n1, "Rec2020"); pair!($s1, Linear<Rec2020>, $n1, "LinRec2020");
+        ok!($s1, $n1);
+    } }
+    row!(Srgb, "Srgb"); row!(Linear<Srgb>, "LinSrgb"); row!(Rec709, "Rec709"); row!(AdobeRgb, "AdobeRgb"); row!(DisplayP3, "DisplayP3"); row!(Linear<DisplayP3>, "LinDisplayP3"); row!(Rec2020, "Rec2020"); row!(Linear<Rec2020>, "LinRec2020");
+}} }
+
 /// RGB-family types across RGB standards: the direct conversion `A<S1> -> A<S2>` (TypeId shortcuts: same standard -> reinterpret, same space ->
 /// transfer functions only, else via Xyz) must equal the step-by-step route through Rgb (and through Xyz), and convert back.
 macro_rules! cross_standard { ($out:expr, $rng:expr, $n:expr, $t:ty) => {{
@@ -174,5 +236,7 @@ pub fn run(tier: &str, seed: u64, dir: &str) {
     run_t::<f64>(&mut out, &mut rng, n, &routes);
     cross_standard!(&mut out, &mut rng, n, f32);
     cross_standard!(&mut out, &mut rng, n, f64);
+    rgb_standards!(&mut out, &mut rng, n / 4 + 8, f32);
+    rgb_standards!(&mut out, &mut rng, n / 4 + 8, f64);
     out.finish(dir, "");
 }
